@@ -21,6 +21,7 @@ mod nop;
 mod psplit;
 mod rng;
 mod settings;
+mod sorts;
 mod strains;
 mod sv;
 
@@ -45,6 +46,7 @@ fn main() {
         "conv" => conv::main(arg(&args, 2, 0), arg(&args, 3, 100), arg(&args, 4, 40)),
         "nop" => nop::main(arg(&args, 2, 0), arg(&args, 3, 0), arg(&args, 4, 100), args.get(5).map_or(false, |s| s == "real")),
         "banana" => nop::banana_main(arg(&args, 2, 0), arg(&args, 3, 100)),
+        "sorts" => sorts::main(arg(&args, 2, 0), arg(&args, 3, 100)),
         "psplit" => psplit::main(arg(&args, 2, 0), arg(&args, 3, 100)),
         "fin" => fin::main(arg(&args, 2, 0), arg(&args, 3, 100), arg(&args, 4, 30)),
         "gperf" => gperf::main(arg(&args, 2, 0), arg(&args, 3, 100), arg(&args, 4, 40)),
